@@ -433,7 +433,7 @@ pub fn main(env: &Env) -> i32 {
     ));
     env.finish(
         "exploration",
-        "generated adversarial handshake frames against construction ground truth, real relays, and a set model of the pool; the admission rules of a live listener are exercised by the live part",
+        "generated adversarial handshake frames against construction ground truth, real relays, and a set model of the pool; the accept loop of a listening node (as opposed to the handshake functions and the pool it calls) is not driven as a whole",
         &["ed25519 / BLS unforgeability: the adversary can only sign with keys it holds", "loopback TCP: waits are bounded by the handshake's own 5 s timeout"],
         parts,
     )
